@@ -778,6 +778,26 @@ class BaseInterpreter(Generic[TContext, TEvent]):
             records.setdefault(actor_id, record)
         return records
 
+    def _find_actor_by_id(
+        self, actor_id: str
+    ) -> Optional["BaseInterpreter[Any, Any]"]:
+        """Finds a live actor anywhere below this interpreter by its full id.
+
+        Args:
+            actor_id (str): The actor's id, e.g. ``"root:child:grandchild"``.
+
+        Returns:
+            Optional[BaseInterpreter]: The actor, or `None`.
+        """
+        found = self._actors.get(actor_id)
+        if found is not None:
+            return found
+        for child in self._actors.values():
+            found = child._find_actor_by_id(actor_id)
+            if found is not None:
+                return found
+        return None
+
     def _resolve_actor_machine(
         self, service_key: Optional[str]
     ) -> Optional[MachineNode[Any, Any]]:
@@ -1010,9 +1030,12 @@ class BaseInterpreter(Generic[TContext, TEvent]):
             if record.get("src"):
                 interpreter._actor_sources[actor_id] = record["src"]
 
-        # 🌐 Re-register restored actors under their original systemIds.
+        # 🌐 Re-register restored actors under their original systemIds. The
+        #    registry lives on the root and names actors at ANY depth, while
+        #    `_actors` holds the direct children only: looking the id up there
+        #    silently dropped the systemId of every restored grandchild.
         for system_id, actor_id in (snapshot.get("system") or {}).items():
-            restored_actor = interpreter._actors.get(actor_id)
+            restored_actor = interpreter._find_actor_by_id(actor_id)
             if restored_actor is not None:
                 interpreter._system[system_id] = restored_actor
 
